@@ -290,19 +290,16 @@ static bool roundtrip(const Script& sc, bool usernames, int* rafter, int* cafter
    Solver* s = &mem.s;
    LP* lp = new(static_cast<SPxLPBase<double>*>(s)) LP();     // the LP part of the solver is a real, constructed LP
    build_bounds(*lp, sc.d);
-   s->Basis::theLP = s;
+   Basis* b = new(static_cast<Basis*>(s)) Basis();            // ... and so is its basis part (real constructor: real vtable, real arrays)
    s->theRep = Solver::COLUMN;
    s->thevectors = s->colSet(); s->thecovectors = s->rowSet();            // as SPxSolverBase::initRep()
-   s->Basis::thestatus = Basis::REGULAR;
-   s->Basis::spxout = &outmem.o;                                          // zero memory: verbosity ERROR, nothing is printed
-   s->Solver::spxout = &outmem.o;
-   new(&s->thedesc.rowstat) DataArray<Desc::Status>(VNR, VNR);
-   new(&s->thedesc.colstat) DataArray<Desc::Status>(VNC, VNC);
-   s->thedesc.stat = &s->thedesc.colstat; s->thedesc.costat = &s->thedesc.rowstat;   // as SPxBasisBase::setRep(), COLUMN
+   s->Solver::spxout = &outmem.o;                                         // zero memory: verbosity ERROR, nothing is printed
+   b->spxout = &outmem.o;
+   b->theLP = s;                                                          // as SPxBasisBase::load(): theLP, setRep() (sizes descriptor, matrix, ids)
+   b->setRep();
+   b->thestatus = Basis::REGULAR;
    for(int i = 0; i < VNR; ++i) s->thedesc.rowStatus(i) = (Desc::Status)sc.rds[i];
    for(int j = 0; j < VNC; ++j) s->thedesc.colStatus(j) = (Desc::Status)sc.cds[j];
-   new(&s->Basis::theBaseId) DataArray<SPxId>(VNR, VNR);
-   new(&s->Basis::matrix) DataArray<const SVectorBase<double>*>(VNR, VNR);
    NameSet* rn = nullptr; NameSet* cn = nullptr;
    if(usernames)
    {
